@@ -22,7 +22,7 @@ var l2Shrunk = map[*Report]int{} // violations minimised so far, per report
 
 // l2Replayer describes how a case was produced.
 type l2Replayer struct {
-	Fresh   func() *L2Scenario                  // scenario in the state the case started from
+	Fresh   func() *L2Scenario                    // scenario in the state the case started from
 	Monitor func(rep *Report, c *L2Case, init Ov) // the monitors the stream applied to the case
 }
 
@@ -240,4 +240,3 @@ func shrinkL2Violations(rep *Report, from int, c *L2Case, rp l2Replayer) {
 		rep.Notes = append(rep.Notes, "shrunk "+sig+": "+strconv.Itoa(len(prefix))+" -> "+strconv.Itoa(len(hist))+" operations in "+strconv.Itoa(l2ShrinkMaxReplays-budget)+" re-executions")
 	}
 }
-
